@@ -74,6 +74,8 @@ def run_cases(rec, tier, seed):
                 for extra in range(max(U) + 2, max(U) + 2 + rnd.randint(1, 6)):
                     if abs(extra) < 2 ** 62:
                         mapping[extra] = rnd.choice(tg + [51, 52, 53])
+        if r >= 0.65 and r < 0.72:
+            mapping = {v: 7 for v in vals}          # every value of the data goes to the same output
         if mapping is not None and common is not None and common not in mapping:
             mapping[common] = rnd.choice(list(mapping.values()))
         counts = {v: int((a == v).sum()) for v in vals} if rnd.random() < 0.5 else None
